@@ -31,20 +31,28 @@ func cmdRace(args []string) {
 			continue
 		}
 		tree := BuildTree(c.Doc)
-		evalOne := func(e *xpath.Expr, sel bool) (res string) {
+		// every goroutine works at its own context node (the case's, and others of the document in turn): what a
+		// call returns must be what it returns alone at that node, not what another goroutine computes at its own
+		ctxs := []Ref{c.Ctx}
+		for _, rf := range c.Doc.AllRefs() {
+			if rf.K < 0 && rf != c.Ctx && len(ctxs) < 8 {
+				ctxs = append(ctxs, rf)
+			}
+		}
+		evalAt := func(e *xpath.Expr, sel bool, at Ref) (res string) {
 			defer func() {
 				if x := recover(); x != nil {
 					res = "panic:" + panicClass(x)
 				}
 			}()
 			if sel {
-				rs, ok := drain(e.Select(tree.At(c.Ctx, true)), maxResults)
+				rs, ok := drain(e.Select(tree.At(at, true)), maxResults)
 				if !ok {
 					return "diverge"
 				}
 				return "seq:" + refsStr(rs)
 			}
-			return valueStr(e.Evaluate(tree.At(c.Ctx, true)))
+			return valueStr(e.Evaluate(tree.At(at, true)))
 		}
 		fresh, err := xpath.Compile(c.Expr)
 		if err != nil {
@@ -57,12 +65,15 @@ func cmdRace(args []string) {
 		_ = fresh
 		shared, _ := xpath.Compile(c.Expr)
 		var wg sync.WaitGroup
-		type obs struct{ what, got string }
+		type obs struct {
+			what, got string
+			at        Ref
+		}
 		var mu sync.Mutex
 		var seen []obs
-		rec := func(what, got string) {
+		rec := func(what, got string, at Ref) {
 			mu.Lock()
-			seen = append(seen, obs{what, got})
+			seen = append(seen, obs{what, got, at})
 			mu.Unlock()
 		}
 		for i := 0; i < gor; i++ {
@@ -70,26 +81,30 @@ func cmdRace(args []string) {
 			go func(i int) {
 				defer wg.Done()
 				for rep := 0; rep < 3; rep++ {
+					at := ctxs[(i+rep)%len(ctxs)]
 					if i%2 == 0 {
-						rec("select", evalOne(shared, true))
+						rec("select", evalAt(shared, true, at), at)
 					} else {
-						rec("evaluate", evalOne(shared, false))
+						rec("evaluate", evalAt(shared, false, at), at)
 					}
 					if i%4 == 3 {
 						if e2, err := xpath.Compile(c.Expr); err == nil {
-							rec("compile", evalOne(e2, true))
+							rec("compile", evalAt(e2, true, at), at)
 						}
 					}
 				}
 			}(i)
 		}
 		wg.Wait()
-		wantSel, wantEval := evalOne(fresh2(c.Expr), true), evalOne(fresh2(c.Expr), false)
+		wantSel, wantEval := map[Ref]string{}, map[Ref]string{}
+		for _, at := range ctxs {
+			wantSel[at], wantEval[at] = evalAt(fresh2(c.Expr), true, at), evalAt(fresh2(c.Expr), false, at)
+		}
 		bad := make(chan string, len(seen)+1)
 		for _, o := range seen {
-			want := wantSel
+			want := wantSel[o.at]
 			if o.what == "evaluate" {
-				want = wantEval
+				want = wantEval[o.at]
 			}
 			if o.got != want {
 				bad <- o.what + ":" + o.got + "!=" + want
